@@ -12,5 +12,5 @@ PROP = {
  'level_note': 'Trusted base: the model in harness/C05.cpp; private node state is read through NodeTestAccess and a template-instantiation accessor (no hook). An expired record '
                'that is overwritten by a new store before anything noticed the expiry may be reported or not (statement silent).',
  'assumptions': ['steady and system clocks advance in lock-step (interposed)', 'announce PoW off, uploads unlimited so peer requests are always served'],
- 'tiers': {'quick': [rc(3000)],
+ 'tiers': {'quick': [rc(2000)],
            'thorough': [rc(15000, W), fuzz(180, 8, max_len=8 + 8 * 60)]}}
